@@ -37,7 +37,7 @@ def load_harnesses():
 
     pdir = os.path.join(ROOT, "vfw", "props")
     for fn in sorted(os.listdir(pdir)):
-        if fn.endswith(".py") and fn[0] == "C" and fn[1:3].isdigit():
+        if fn.endswith(".py") and fn not in ("__init__.py", "common.py"):
             importlib.import_module(f"vfw.props.{fn[:-3]}")
     return harness.REGISTRY
 
@@ -101,7 +101,7 @@ def cmd_check(prop, tier, seed, jobs, only=None, verbose=False):
     known_keys = {k["key"]: k for k in known}
     names = select(reg, prop, tier, only)
     # a canary per run: a deliberately false contract must be refuted and replayed (2.8)
-    canaries = [n for n, h in reg.items() if h.expect == "refuted"]
+    canaries = [n for n, h in reg.items() if h.expect == "refuted" and "canary" in n]
     names_all = names + [c for c in canaries if c not in names]
     if not names:
         print(f"UNDECIDED property={prop} reason=no-obligations-registered")
@@ -113,6 +113,7 @@ def cmd_check(prop, tier, seed, jobs, only=None, verbose=False):
     os.makedirs(os.path.join(ROOT, "evidence"), exist_ok=True)
 
     violations, undecided, crashes, known_seen = [], [], [], []
+    negative_ok = []
     obligations = discharged = 0
     named = named_ok = 0
     solver_s = 0.0
@@ -142,7 +143,9 @@ def cmd_check(prop, tier, seed, jobs, only=None, verbose=False):
         if is_canary:
             ok = st == "refuted" and all(x.get("reproduced") for x in r.get("refutations", []))
             if not ok:
-                crashes.append((hn, "canary not refuted/replayed: engine unsound or replay broken"))
+                crashes.append((hn, "must-be-refuted contract was not refuted/replayed: engine unsound, replay broken, or the pinned behaviour changed"))
+            else:
+                negative_ok.append(hn)
             continue
         if st in ("crash", "engine-mismatch", "error"):
             crashes.append((hn, r.get("reason") or r.get("error") or json.dumps(r.get("crosscheck", {}))[:500]))
@@ -177,6 +180,8 @@ def cmd_check(prop, tier, seed, jobs, only=None, verbose=False):
             xc_models += xc.get("models", 0)
             for cn, c in r.get("clauses", {}).items():
                 key = f"obligation:{hn}:{cn}"
+                if cn == "dependency-precondition" and prop != "C13":
+                    continue  # contract of fractions.Fraction.limit_denominator: reported by the C13 check only
                 if c["status"] == "refuted":
                     rep = next((x for x in r.get("refutations", []) if x["clause"] == cn), {})
                     if key in known_keys:
@@ -247,6 +252,7 @@ def cmd_check(prop, tier, seed, jobs, only=None, verbose=False):
             evaluations=max(evals, 1), distinct_nontrivial=max(nontriv, 0),
             rule="bounded stand-in families: " + ("; ".join(bounded_rules) or "none"),
             known_findings=[k for k, _ in sorted(set(known_seen))],
+            must_be_refuted_ok=negative_ok,
             undecided=[u for u, _ in undecided],
             harnesses=per_harness, tree=fp, exhaustive=False,
         ),
